@@ -109,6 +109,10 @@ def compare(ctx, sc, ents, stats):
         ctx.cnt["pair_delivery:" + me] += 1
         for k, ((pa, fa, va), (pb, fb, vb)) in enumerate(zip(ref, got)):
             d = first_diff(pa, pb)
+            if d is None and fa == fb and me == "xx" and fa[0] in ("aborted", "stopped", "value", "rejected") and va.final[0] != vb.final[0]:
+                # two execute() entry points agree on the result but not on HOW it is delivered: execute() reports through a RetryOutcome
+                ctx.viol("final-differs", f"[{ref_e} vs {e} call#{k}] same result {fa}, delivered as {va.final[0]} by one execute() and as {vb.final[0]} by the other", common.payload(sc, e, k))
+                break
             if d is None and fa == fb:
                 continue
             if d is None:
